@@ -22,7 +22,14 @@ open Hv.Vigil
 def OpsFinished (s : St) : Prop := s.vigils = 0 ∧ s.pendingB = 0
 
 /-- The full-strength statement. -/
-structure Holds (cfg : Cfg) (handlers : List (String × List Tok)) : Prop where
+structure Holds (cfg : Cfg) (handlers : List (String × List Tok)) (ceaseBeforeDestroy : Bool := true)
+    (closeAlwaysCancels : Bool := true) : Prop where
+  /-- every path through `Close()` after `closing = 1` reaches `goRoutineCancelFunction()`: a
+      `WaitForGracefulClose` caller can return once Close has run -/
+  closeCompletes : (run cfg init (closeTrace closeAlwaysCancels)).isSome = true
+  /-- the auto-destroy path (a goroutine that holds a vigil on the swamp and destroys it) gets
+      through its own drain: it gives its vigil back first -/
+  autoDestroyReturns : (run cfg init (autoDestroyTrace cfg ceaseBeforeDestroy)).map (fun s => s.wpc 0 == .done) = some true
   /-- no reachable state has a sleeping waiter that nobody will wake -/
   noLostWakeup : ∀ as s, run cfg init as = some s → ¬ Stuck s
   /-- once the operations have finished nobody sleeps or sits inside the wait's critical section
@@ -38,8 +45,14 @@ structure Holds (cfg : Cfg) (handlers : List (String × List Tok)) : Prop where
   graceful : (∀ s w, s.wpc w = .done → ∃ s', step cfg s (.wCancel w) = some s' ∧ s'.cancelled = true) ∧
       (∀ s a s', step cfg s a = some s' → s.cancelled = true → s'.cancelled = true) ∧
       (∀ s, s.cancelled = true → (step cfg s .gReturn).isSome)
-  /-- every handler leaves both counters as it found them, whichever statement it leaves after -/
+  /-- every handler leaves both counters as it found them, whichever statement it leaves after … -/
   balance : ∀ h ∈ handlers, ∀ n c, exitAt h.2 n c = c
+  /-- … also when an auto-destroy fired inside it: the safeops counter is exact and the vigil
+      counter is never left ABOVE its entry value (that would block the drain for ever); it ends
+      one BELOW it per fired auto-destroy, on the instance that was destroyed (the method's own
+      `CeaseVigil` plus the handler's deferred one) -/
+  balanceAutoDestroy : ∀ h ∈ handlers, ∀ n c,
+      (exitAt h.2 n c true).sys = c.sys ∧ (exitAt h.2 n c true).vig = c.vig - ((h.2.take n).count .autoDestroy : Int)
 
 theorem reach_inv (as : List Act) (s : St) (h : run good init as = some s) : Inv s :=
   LTS.inv_run (step good) Inv (fun s a s' hi hs => inv_step s a s' hi hs) init as s inv_init h
@@ -55,8 +68,16 @@ theorem no_lost_wakeup (as : List Act) (s : St) (h : run good init as = some s) 
 theorem defer_balance (shape : List Tok) (hp : Paired shape = true) (n : Nat) (c : Counters) :
     exitAt shape n c = c := by
   unfold exitAt
-  rw [exec_paired _ (paired_take shape hp n)]
-  rfl
+  rw [exec_paired false _ (paired_take shape hp n)]
+  simp
+
+/-- with a fired auto-destroy: safeops exact, vigil one below per auto-destroy, never above -/
+theorem defer_balance_autodestroy (shape : List Tok) (hp : Paired shape = true) (n : Nat) (c : Counters) :
+    (exitAt shape n c true).sys = c.sys ∧
+    (exitAt shape n c true).vig = c.vig - ((shape.take n).count .autoDestroy : Int) := by
+  unfold exitAt
+  rw [exec_paired true _ (paired_take shape hp n)]
+  simp
 
 theorem graceful_any (cfg : Cfg) :
     (∀ s w, s.wpc w = .done → ∃ s', step cfg s (.wCancel w) = some s' ∧ s'.cancelled = true) ∧
@@ -72,8 +93,8 @@ theorem graceful_any (cfg : Cfg) :
   · intro s hc; simp [step, hc]
 
 theorem holds_good (handlers : List (String × List Tok))
-    (hp : ∀ h ∈ handlers, Paired h.2 = true) : Holds good handlers := by
-  refine ⟨no_lost_wakeup, ?_, ?_, graceful_any good, ?_⟩
+    (hp : ∀ h ∈ handlers, Paired h.2 = true) : Holds good handlers true true := by
+  refine ⟨by decide, by decide, no_lost_wakeup, ?_, ?_, graceful_any good, ?_, fun h hh n c => defer_balance_autodestroy h.2 (hp h hh) n c⟩
   · intro as s w h ⟨hv, hb⟩ hni hnd
     have hi := reach_inv as s h
     -- nobody is in `checked`/`added` (they would need vigils > 0), nobody is parked or ticketed
@@ -136,7 +157,7 @@ theorem stuck_of_stuckB (s : St) (w : Nat) (h : stuckB s w = true) : Stuck s := 
   simp only [stuckB, Bool.and_eq_true, beq_iff_eq, List.contains_iff_mem] at h
   exact ⟨w, h.1.1.1, h.1.1.2, h.1.2, h.2⟩
 
-theorem refutes_current (handlers : List (String × List Tok)) : ¬ Holds current handlers := by
+theorem refutes_current (handlers : List (String × List Tok)) (cb cc : Bool) : ¬ Holds current handlers cb cc := by
   intro h
   cases hs : run current init witness with
   | none => have := witness_stuck; simp [hs] at this
@@ -148,8 +169,8 @@ theorem refutes_current (handlers : List (String × List Tok)) : ¬ Holds curren
 /-- `HasActiveVigils() >= 0`: the waiter goes to sleep although nothing is in flight. -/
 def witnessLoose : List Act := [.wLock 0, .wCheck 0, .wAdd 0, .wPark 0]
 
-theorem refutes_looseCheck (b : Bool) (handlers : List (String × List Tok)) :
-    ¬ Holds { decUnderLock := b, checkStrict := false } handlers := by
+theorem refutes_looseCheck (b : Bool) (handlers : List (String × List Tok)) (cb cc : Bool) :
+    ¬ Holds { decUnderLock := b, checkStrict := false } handlers cb cc := by
   intro h
   have hw : (run { decUnderLock := b, checkStrict := false } init witnessLoose).map (fun s => stuckB s 0) = some true := by
     cases b <;> decide
@@ -158,6 +179,26 @@ theorem refutes_looseCheck (b : Bool) (handlers : List (String × List Tok)) :
   | some s =>
     simp [hs] at hw
     exact h.noLostWakeup witnessLoose s hs (stuck_of_stuckB s 0 hw)
+
+/-- a return in `Close()` between `closing = 1` and the cancel: the context is never cancelled and
+    `WaitForGracefulClose` has nothing to return on. -/
+theorem refutes_closeAborts (cfg : Cfg) (handlers : List (String × List Tok)) (cb : Bool) : ¬ Holds cfg handlers cb false := by
+  intro h
+  have := h.closeCompletes
+  have hr : (run cfg init (closeTrace false)) = none := by
+    cases cfg with
+    | mk d c => cases d <;> cases c <;> decide
+  rw [hr] at this; simp at this
+
+/-- `Destroy()` called while the caller still holds its own vigil: the drain waits for the caller
+    itself (check sees 1, ticket, sleep — nobody else will ever decrement). -/
+theorem refutes_destroyHoldingVigil (cfg : Cfg) (handlers : List (String × List Tok)) (cc : Bool) : ¬ Holds cfg handlers false cc := by
+  intro h
+  have := h.autoDestroyReturns
+  have hr : (run cfg init (autoDestroyTrace cfg false)).map (fun s => s.wpc 0 == .done) = some false := by
+    cases cfg with
+    | mk d c => cases d <;> cases c <;> decide
+  rw [hr] at this; simp at this
 
 /-- `_partial`: what survives the lost wake-up — handler balance and the latch part. -/
 structure HoldsPartial (cfg : Cfg) (handlers : List (String × List Tok)) : Prop where
@@ -190,13 +231,16 @@ structure Facts where
   gracefulWaitsOnContext : Tri
   /-- `safeops.WaitForUnlock` and hydra's graceful stop poll (re-check in a loop): no wake-up to lose -/
   safeopsWaitPolls : Tri
+  /-- every auto-destroy site of swamp.go (`DeleteTreasure`, `CloneAndDelete…`) calls `s.CeaseVigil()`
+      immediately before `s.Destroy()` -/
+  ceasePrecedesDestroy : Tri
   /-- every RPC handler (and closure) of the gateway with its counter statements in source order -/
   handlers : List (String × List Tok)
   deriving Repr
 
 def structural (f : Facts) : Bool :=
   f.condOnMu.isYes && f.waitLoopUnderLock.isYes && f.broadcastAfterDec.isYes &&
-  f.destroyDrainsThenCancels.isYes && f.closeCancels.isYes && f.gracefulWaitsOnContext.isYes &&
+  f.destroyDrainsThenCancels.isYes && f.gracefulWaitsOnContext.isYes &&
   f.safeopsWaitPolls.isYes
 
 def allPaired (f : Facts) : Bool := f.handlers.all (fun h => Paired h.2)
@@ -207,17 +251,21 @@ def triBool : Tri → Option Bool
 def classify (f : Facts) : Verdict :=
   if !structural f then .undetermined "vigil.go / swamp.go / safeops.go no longer have the modelled shape" else
   if !allPaired f then .undetermined "a gateway handler changes a counter outside a paired call+defer" else
-  match triBool f.decrementUnderCondLock, triBool f.checkStrict with
-  | some true, some true => .holds
-  | some _, some false => .violated ["C17-wait-never-returns"]
-  | some false, some true => .violated ["C17-lost-wakeup"]
-  | _, _ => .undetermined "vigil.decrementUnderCondLock / vigil.checkStrict"
+  match triBool f.closeCancels, triBool f.ceasePrecedesDestroy, triBool f.decrementUnderCondLock, triBool f.checkStrict with
+  | some false, some _, some _, some _ => .violated ["C17-close-never-completes"]
+  | some true, some false, some _, some _ => .violated ["C17-destroy-holding-own-vigil"]
+  | some true, some true, some true, some true => .holds
+  | some true, some true, some _, some false => .violated ["C17-wait-never-returns"]
+  | some true, some true, some false, some true => .violated ["C17-lost-wakeup"]
+  | _, _, _, _ => .undetermined "vigil.decrementUnderCondLock / vigil.checkStrict / swamp.ceasePrecedesDestroy"
 
 def cfgOf (f : Facts) : Cfg :=
   { decUnderLock := f.decrementUnderCondLock.isYes, checkStrict := f.checkStrict.isYes }
+def ceaseOf (f : Facts) : Bool := f.ceasePrecedesDestroy.isYes
+def closeOf (f : Facts) : Bool := f.closeCancels.isYes
 
 theorem classify_sound (f : Facts) :
-    (classify f).Sound (Holds (cfgOf f) f.handlers) (HoldsPartial (cfgOf f) f.handlers) := by
+    (classify f).Sound (Holds (cfgOf f) f.handlers (ceaseOf f) (closeOf f)) (HoldsPartial (cfgOf f) f.handlers) := by
   unfold classify
   split
   · simp [Verdict.Sound]
@@ -227,11 +275,14 @@ theorem classify_sound (f : Facts) :
       have hp' : ∀ h ∈ f.handlers, Paired h.2 = true := by
         simp only [allPaired, Bool.not_eq_true, Bool.not_eq_false'] at hp
         simpa [List.all_eq_true] using hp
-      cases hd : f.decrementUnderCondLock <;> cases hc : f.checkStrict <;>
-        simp only [triBool, Verdict.Sound, cfgOf, hd, hc, Tri.isYes] <;> try trivial
-      · exact holds_good f.handlers hp'
-      · exact ⟨refutes_looseCheck _ _, holds_partial _ _ hp'⟩
-      · exact ⟨refutes_current _, holds_partial _ _ hp'⟩
-      · exact ⟨refutes_looseCheck _ _, holds_partial _ _ hp'⟩
+      cases hy : f.closeCancels <;> cases hx : f.ceasePrecedesDestroy <;> cases hd : f.decrementUnderCondLock <;> cases hc : f.checkStrict <;>
+        simp only [triBool, Verdict.Sound, cfgOf, ceaseOf, closeOf, hy, hx, hd, hc, Tri.isYes] <;>
+        first
+          | trivial
+          | exact ⟨refutes_closeAborts _ _ _, holds_partial _ _ hp'⟩
+          | exact holds_good f.handlers hp'
+          | exact ⟨refutes_looseCheck _ _ _ _, holds_partial _ _ hp'⟩
+          | exact ⟨refutes_current _ _ _, holds_partial _ _ hp'⟩
+          | exact ⟨refutes_destroyHoldingVigil _ _ _, holds_partial _ _ hp'⟩
 
 end Hv.C17
